@@ -210,6 +210,7 @@ pub fn check_c19(sc: &Scenario, seed: u64, thorough: bool, st: Option<&mut Stats
             ));
         }
     }
+    crate::driver::chain(bd);
     if let Some(st) = st {
         st.runs += n + 1;
         st.layouts.insert(bd);
